@@ -13,6 +13,7 @@ from . import common, molprops
 
 SPEC = {
     "level": "exploration",
+    "level_text": 'Exploration: post-condition on graph_to_molfile (line length, frame, read-back through the real reader position by position) driven by inputs engineered to put the 72-character wrap at every relevant character class and at 1-4 wraps per line; plus the string->graph->molfile->graph->string cycle.',
     "suite_under_monitor": True,
     "technique": "runtime contract (icontract ensure) on graph_to_molfile: line-length/frame post-condition + read-back through the real reader compared position by position; length-targeted inputs",
     "rule": ("cases: graphs with attributes in the format's ranges whose atom lines are engineered to logical lengths 66..80, 137..150, 208..220 (index width, coordinate magnitudes up to 1e60, "
